@@ -224,8 +224,8 @@ def check(prog, ctx):
     sd = G.exit_sites(prog, det, wr)
     ctx.decide('C05.c', 'Determinant:gate', det, len(sd) == 1 and G.f_show(sd[0].reach).replace(' ', '') == '!(this.Square())',
                'Determinant exits iff not square', 'exit sites: %s' % [G.f_show(s.reach) for s in sd])
-    laplace(prog, ctx, det)
-    extraction(prog, ctx, inv, elim, scale)
+    ctx.sub('laplace', laplace, prog, ctx, det)
+    ctx.sub('extraction', extraction, prog, ctx, inv, elim, scale)
 
 
 def laplace(prog, ctx, det):
